@@ -404,6 +404,7 @@ class World:
         self.trace: list = []
         self.pristine: PristineRef | None = None
         self.last_data = None
+        self.last_probe: dict | None = None
         self.probe_before: dict[int, list] | None = None
         self.t0 = self.clock.now
         if build_shared:
@@ -726,10 +727,13 @@ def do_step(w: World, step: dict) -> None:
             # under the earlier configuration, a fresh one re-parses them (not a C09 matter)
             w.count("config_skipped_parse_time_on_caching_loader")
             return
-        before = w.probe_all()
+        # the outcomes recorded after the previous configure step serve as "before": nothing a
+        # render does in between may change another environment's probes either
+        before = w.last_probe if w.last_probe is not None else w.probe_all()
         apply_config(w.shared.envs[ei], step)
         w.env_events[ei].append(("config", {kk: vv for kk, vv in step.items() if kk not in ("op", "id", "env")}))
         after = w.probe_all()
+        w.last_probe = after
         for oi in before:
             if oi == ei:
                 continue
